@@ -112,8 +112,14 @@ META["C03"] = dict(
          "2 in the byte budget premise); C03_close_crash_recovers / _against_map / _keeps_working_partial / C03_close_images_recover "
          "over Sth/Model/CrashImageClose.lean (every crash image of Store.Close: flush images of primary+index, snapshot absent or "
          "present, freelist append images - with the snapshot present every key reads the NEW value) and C03_snapshot_needs_complete_index "
-         "(decide witness that the order index flush before snapshot rename is load-bearing). Partial with respect to the statement: "
-         "crashes inside GC, open and upgrade steps are "
+         "(decide witness that the order index flush before snapshot rename is load-bearing); C03_igc_interrupted_crash_recovers "
+         "(a crash after an index GC cycle cut at ANY poll - any state of any history incl. GC, dirty pools allowed, both primaries: "
+         "every byte string reads what recovery of the disk before the cycle reads), C03_pgc_interrupted_crash_recovers (the same for a "
+         "primary GC cycle that starts with an EMPTY INDEX POOL: nothing acknowledged is lost) and "
+         "C03_d11_pgc_dirty_index_pool_loses_durable_value (decide: without that premise a flushed value is lost = known finding D11 in "
+         "the model). Granularity: the model is cut at polls; the file-system steps between two polls are each atomic and covered by the "
+         "crash engine. Partial with respect to the statement: "
+         "crashes inside open and upgrade steps and between the polls of a GC cycle are "
          "covered by the crash engine (images at ~100 hook points recovered by the real code and by the model), not by theorems; known findings "
          "D11, D12 are excluded by decidable recognisers on the image/history.",
     note=SEQ_NOTE + " Process-crash semantics: bytes reach files in order; rename/unlink/truncate/4-byte pwrite atomic. Hook completeness "
@@ -182,8 +188,12 @@ META["C13"] = dict(
          "current block for an overwrite/removal of a present key, nothing for a new key, a rejected Put, a Remove of an absent key, "
          "a read or a flush), C13_recorded_not_current / C13_current_not_recorded, C13_exactly_once (no location twice), C13_run "
          "(recorded = concatenation of the superseded locations of the whole history), C13_file_well_formed; for every legal "
-         "configuration and C01 history. Partial: consumption by GC cycles and the concurrent hand-over (Put || Flush || ToGC) are "
-         "covered by the seq and sched runs, not by theorems.",
+         "configuration and C01 history. Along histories WITH garbage collection (Sth/Props/C13G.lean): C13_gc_nothing_current_recorded "
+         "(no recorded block - freelist file, .gc file, pool - has the offset of a current record, any history under GcCountersOK), "
+         "C13_gc_consumes (a complete primary GC cycle leaves the freelist file empty and no .gc file: everything recorded before it "
+         "was presented to it; what remains recorded is what the cycle itself recorded by relocation), C13_gc_pool_after. Not proved: "
+         "'nothing is recorded twice' along GC histories (needs a history variable); the concurrent hand-over (Put || Flush || ToGC) "
+         "is covered by the sched runs, not by theorems.",
     note=SEQ_NOTE,
 )
 
@@ -201,8 +211,12 @@ META["C07"] = dict(
          "every entry names a complete non-deleted primary record of the recorded size whose key falls in the bucket and extends the "
          "prefix; freelist disjoint from live), negative witnesses on concrete corruptions (the checker is not vacuous). Partial: "
          "C07_fsck_clean_igc / C07_recovered_table_igc / C07_reopen_igc / C07_after_igc extend all of this to histories WITH index GC "
-         "cycles (complete or cut at any poll); histories with primary GC cycles are covered by the evaluation on real bytes (theorem "
-         "in progress: known finding D11 restricts it to cycles that start with a clean index pool).",
+         "cycles (complete or cut at any poll); C07_fsck_clean_gc_partial / _afterFlush extend it to histories with PRIMARY GC cycles "
+         "under GcCountersOK and the premise that every primary GC cycle starts with an empty index pool (decidable on the run; implied "
+         "by a flush/iteration/reopen directly before each cycle); unconditional for the CID primary. The premise is known finding D11: "
+         "C07_d11_witness (put; flush; put; pgc: fsck reports an entry naming a deleted record) and C07_d11_relocation_witness - a NEW "
+         "variant found by the proof: a primary GC cycle itself leaves the index pool dirty (Index.Relocate updates the pool only), so "
+         "two cycles in a row without a Flush in between leave the on-disk index naming an unlinked file.",
     note=SEQ_NOTE,
 )
 META["C17"] = dict(
@@ -240,12 +254,20 @@ META["C09"] = dict(
 META["C10"] = dict(
     engine="lean+harness(seq,crash)",
     design_ref="DESIGN.md section 5, C10",
-    technique="Lean 4 proofs of the pure upgrade core (re-chunking, offset remapping) + correspondence of chunk sizes/remapped locations with the real upgrade of generated legacy stores + fsck and map oracle + crash images of every upgrade step",
+    technique="Lean 4 proof (the byte-level upgrade of every well-formed legacy store refines the map of its contents minus freed records; records stay whole; fsck clean) over a model compared byte for byte with the real upgrade + pure core (re-chunking, offset remapping) + fsck and map oracle + crash images of every upgrade step",
     text="Proved for every record sequence, limit and offset: chunks concatenate to the input, no record is split, every chunk but the last "
          "reaches the limit, record starts stay below the limit, a record's linear offset is remapped to exactly the chunk and offset where "
          "it now starts, offsets beyond the primary are rejected. The real upgrade of generated legacy stores is compared with these "
          "functions, its result is checked by the Lean fsck and the map oracle, and the model is re-synchronised from the upgraded "
-         "directory so later history is byte-compared. The resume clause is examined by the crash engine; known finding D14.",
+         "directory so later history is byte-compared. The resume clause is examined by the crash engine; known finding D14. PROVED end to end over the byte-level model Sth/Model/UpgradeBytes.lean (whose output equals the real upgraded directory "
+         "byte for byte on every generated legacy store): C10_upgrade_contents (for every legal multihash configuration and every "
+         "well-formed legacy store - executable check LegacyC.wfCheck - the upgrading open succeeds, a following Flush changes nothing, "
+         "and EVERY later history on the upgraded store, or on the store reopened from its directory, returns what the map started from "
+         "the legacy contents minus freed records returns), C10_upgrade_reads, C10_upgrade_records_whole (numbered files = chunks of the "
+         "legacy records, every non-freed record byte-identical, sizes = chunkFileSizes, every bucket reads its current legacy list with "
+         "offsets remapped by remapOffset and every entry resolves to the record it named), C10_upgrade_fsck (fsck clean on the upgraded "
+         "directory and after every later run). Out of the theorems' scope, handled by the model and the runs: unmappable entries, torn "
+         "tails, a bit size different from the legacy header's; the resume after an interruption (known finding D14) - in progress.",
     note=SEQ_NOTE + " The byte-level upgrade (chunk file contents, in-place offset rewrite) is not modelled; only its pure core and its result.",
 )
 
